@@ -360,14 +360,16 @@ Definition ns_source_lla := nd_lla 1.
 (* func EncodeDNSQuery(tranID, flags uint16, encodedName []byte, questionType uint16) DNS
      b := make([]byte, 512); header; n := copy(b[12:], encodedName)
      PutUint16(b[12+n:], questionType); PutUint16(b[14+n:], 1); return b[:16+n] *)
-Definition encode_dns_query (tranid flags : N) (name : bytes) (qtype : N) : res slice :=
+Definition dns_header_buf (tranid flags : N) : res slice :=
   (b <- Ok (mkSlice (repeat 0 512) 512) ;;
    b <- put16 b 0 tranid ;;
    b <- put16 b 2 flags ;;
    b <- put16 b 4 1 ;;
    b <- put16 b 6 0 ;;
    b <- put16 b 8 0 ;;
-   b <- put16 b 10 0 ;;
+   put16 b 10 0)%res.
+Definition encode_dns_query (tranid flags : N) (name : bytes) (qtype : N) : res slice :=
+  (b <- dns_header_buf tranid flags ;;
    let n := Nat.min (List.length name) 500 in
    b <- copyfrom b 12 name ;;
    b <- put16_from b (12 + n) qtype ;;
